@@ -24,6 +24,9 @@ RAW_VIEWS = {
 TRAITS = {"std::cmp::PartialEq": "eq", "std::cmp::Ord": "cmp", "std::hash::Hash": "hash"}
 # methods of Value/ValueRef a comparison may call without touching representation
 NEUTRAL = {"as_ref", "ty", "shallow_clone"}
+# iterator consumers that summarise a sequence into one value
+COLLAPSING = {"fold", "try_fold", "sum", "product", "count", "reduce", "last", "max", "min", "nth", "rfold"}
+INTS = {"u8", "u16", "u32", "u64", "u128", "usize", "i8", "i16", "i32", "i64", "i128", "isize", "bool"}
 
 FINISH = dict(level="other",
               explanation="Call-graph + provenance analysis of the three comparison trait impls of Value (and Final, "
@@ -61,6 +64,7 @@ def run(ctx, rep):
         f = F.inlined(fs[0])   # private same-file helpers are spliced in
         views = set()
         ty_read = False
+        collapsed = []
         raw_fields = []
         val_methods = set()
         for bfn in bodies(F, f):
@@ -85,6 +89,17 @@ def run(ctx, rep):
                     t0 = T.operand(cs.args[0])
                     if any(x[0] == "parampath" and x[3][-1:] == ("ty",) for x in leaves(t0)):
                         ty_read = True
+            # the view collapsed into a fixed-size number before comparison: sequences of different length (sums) collide
+            if mname in ("eq", "cmp"):
+                for cs in bfn.calls():
+                    if not (cs.trait == "std::iter::Iterator" or cs.decl.startswith("std::iter::Iterator::")):
+                        continue
+                    if cs.name not in COLLAPSING or not any(a.startswith(it) for a in cs.f.get("args", []) for it in iter_adts):
+                        continue
+                    dty = bfn.locals[cs.dest[0]] if not cs.dest[1] else ""
+                    dty = dty if isinstance(dty, str) else dty.get("ty", "")
+                    if dty in INTS or any(a in INTS for a in cs.f.get("args", [])[1:]):
+                        collapsed.append((cs, dty))
             # direct reads of the raw buffer
             for b in bfn.rpo():
                 for s in bfn.blocks[b]["s"]:
@@ -105,6 +120,11 @@ def run(ctx, rep):
                 rep.violation("C11.view", key + ":UNREVIEWED:" + v.rsplit("::", 1)[1],
                               "%s reads the value through %s, which is not a reviewed canonical view" % (key, v), f.where())
                 bad = True
+        for cs, dty in collapsed:
+            rep.violation("C11.view", key + ":collapsed:" + cs.name, "%s folds the canonical bit sequence into a %s with Iterator::%s before comparing: the "
+                          "compact encodings of one sum type differ in length, and sequences of different length can give the same number"
+                          % (key, dty or "fixed-size integer", cs.name), cs.where())
+            bad = True
         for w in sorted(set(raw_fields)):
             rep.violation("C11.view", key + ":rawfield", "%s reads Value's buffer/offset fields directly" % key, w)
             bad = True
@@ -192,15 +212,30 @@ def run(ctx, rep):
         else:
             rep.violation("C11.type", "Final::" + mname, "reads fields %s of the type, expected only the TMR" % sorted(fields), f.where())
     # no pointer-identity comparison of types anywhere (thread-local type tables are per thread)
-    n_pe = 0
-    for f in F.fns.values():
-        for cs in f.calls():
-            if cs.name == "ptr_eq" and "Arc" in cs.callee and any("Final" in a for a in cs.f.get("args", [])):
-                n_pe += 1
-                rep.violation("C11.type", "ptr_eq:" + f.path, "Arc::ptr_eq on a type: identity depends on which thread/table built it", cs.where())
-    if n_pe == 0:
-        rep.ok("C11.type", "no Arc::ptr_eq on Arc<Final>", None)
+    sites = pointer_identity_sites(F)
+    for f, cs, what in sites:
+        rep.violation("C11.type", "ptr_eq:" + f.path, "%s on a type: identity depends on which thread/table built it, not on the type it denotes" % what, cs.where())
+    if not sites:
+        rep.ok("C11.type", "no pointer-identity comparison of types (Arc::ptr_eq, ptr::eq, ptr::addr_eq on Final)", None)
     return FINISH
+
+
+def pointer_identity_sites(F):
+    """[(fn, call site, what)]: comparisons of the *addresses* of types (Final) rather than of their Merkle roots"""
+    out = []
+    for f in F.fns.values():
+        if not f.path.startswith(("simplicity::", "<simplicity::")):
+            continue
+        for cs in f.calls():
+            ga = " ".join(cs.f.get("args", []))
+            cal = cs.callee or ""
+            if "final_data::Final" not in ga:
+                continue
+            if cs.name == "ptr_eq" and ("Arc" in cal or "Rc" in cal):
+                out.append((f, cs, "Arc::ptr_eq"))
+            elif cs.name in ("eq", "addr_eq", "fn_addr_eq") and cal.startswith(("std::ptr::", "core::ptr::")):
+                out.append((f, cs, "ptr::" + cs.name))
+    return out
 
 
 def _places(rv):
